@@ -264,7 +264,7 @@ def run(tier, replay=None):
             v.violation(f'kernel reply errno={err}: {"raised" if raised else "accepted"}', {}, signature={'component': 'reply', 'errno': err})
     total = sum(n.values())
     v.coverage.update({'evaluations': total + n_layout, 'distinct_nontrivial': n['newsa'] + n['delsa'] + n['newpolicy'] + n['events'], 'counts': n, 'layout_entries_checked': n_layout,
-                       'rule': 'XfrmWire.tla universe: network-aligned IPv4/IPv6 selectors (/0 /8 /24 /32 /64 /128), ports {0,1,255,256,65535}, IP protocols {0,6,17,58}, ESP/AH, both '
+                       'rule': 'Xfrm.create_policies over the EntryLists of XfrmWire.tla (1-3 protect entries in order, ESP / AH x transport / tunnel: three requests per entry, each byte-compared with the intent of its own entry); XfrmWire.tla universe: network-aligned IPv4/IPv6 selectors (/0 /8 /24 /32 /64 /128), ports {0,1,255,256,65535}, IP protocols {0,6,17,58}, ESP/AH, both '
                                'modes, every algorithm / key size, lifetimes {-1, 1, 60, 2^32+5}, SPIs {1, 0x01020304, 0xffffffff}, policy indices {0, 9, 2^20+1, 2^29-1}, directions: every '
                                'selector with one parameter set + every parameter combination with two selectors; each intent compared byte for byte and decoded by a C program '
                                'using the kernel structures; events / replies encoded by that C program',
